@@ -1,6 +1,6 @@
 #!/bin/bash
 # usage: eval_seed.sh <ID> [check-id] -- confirm an independently written breaking change and run the check against it
-ID=$1; CHK=${2:-$1}; WT=/tmp/wt/$ID
+ID=$1; CHK=${2:-$1}; WT=${WTBASE:-/tmp/wt}/$ID
 cd $WT || exit 9
 echo "== patch matches worktree diff: $(diff <(git diff -- src) seeded/patch.diff >/dev/null && echo yes || echo NO)"
 PYTHONPATH=$WT/src timeout 300 /venv/bin/python seeded/demo.py >/tmp/demo_$ID.out 2>&1; echo "== demo with change: exit $? ($(tail -1 /tmp/demo_$ID.out | cut -c1-100))"
